@@ -129,6 +129,7 @@ class ModelHarness(Harness):
                 for ro in rowops:
                     for r2 in rowops:
                         if ro[0] == "pre" and r2[0] == "act" and ro[1] != r2[1]: out.append(("dual2", ro, r2))
+                        if ro[0] == "pre" and r2[0] == "pre" and ro[1] < r2[1]: out.append(("dual2", ro, r2))      # two banks precharged in one cycle
         return out
 
     def describe(self, ch):
